@@ -203,6 +203,19 @@ def run_case(case):
     obs["purity_checks"] += 1
     if a != b:
         V("evaluation_not_a_pure_function_of_x")
+    # the same point object refilled in place (a grid scan reusing one list, a random search reusing one ndarray):
+    # the value must be that of the coordinates currently held
+    for mk in (list, np.array):
+        buf = mk([float(v) for v in sub[0]])
+        for q in sub[1:60]:
+            for j, v in enumerate(q):
+                buf[j] = v
+            got, want = float(obj.f(buf)), float(obj.f([float(v) for v in q]))
+            obs["buffer_reuse_evaluations"] += 1
+            if got != want:
+                V("value_depends_on_evaluation_history_not_only_on_x", x=q, got=got, want=want,
+                  buffer=mk.__name__)
+                break
     st1 = obj.__dict__
     if set(st1) != set(state0) or any(repr(st1[k]) != repr(state0[k]) for k in state0):
         V("object_attributes_changed_by_evaluation", before=state0, after=dict(st1))
